@@ -30,6 +30,7 @@ func init() {
 	ruleText["R06.7"] = "the unwinding loop invokes each deferred record through a function that has its own deferred, non-re-panicking recover, so that a panic in one deferred call does not skip the others"
 	ruleText["R06.6"] = "same analysis as C01/R01.4: copyNode copies or re-initialises every node field the AST builder sets, so that defer/recover/panic statements inside instantiated generic functions are compiled like the same statements elsewhere"
 	ruleText["R06.8"] = "same analysis as C01/R01.8 on the generator of recover: every path of its run-time closure that continues execution stores the call's result, so a recover() executed again in the same activation does not yield the previous panic value"
+	ruleText["R06.9"] = "same analysis as C08/R08.1: no run-time closure writes a variable captured from its generator (deferred-call wrappers and records are per execution)"
 	ruleText["R06.5"] = "a converting recover assigns Panic{Value: <recovered>, ...} to the error result of its function"
 }
 
@@ -55,6 +56,19 @@ func runC06(c *Config, r *Report) {
 	// R06.8: recover() yields nil when no panic is in progress, also the second time the same
 	// call is executed in an activation (same analysis as C01/R01.8, on the recover generator).
 	c01R8(ic, r, "R06.8", map[string]bool{"_recover": true})
+	// R06.9: the record of a deferred call, and the frame its callee gets, are built when the defer
+	// statement executes: the run-time closures keep no per-statement mutable state (same analysis
+	// as C08/R08.1). A wrapper cached across executions keeps the frame of the first activation,
+	// so recover() called by the deferred function of a later activation returns nil.
+	{
+		sub9 := newReport("C08")
+		c08R1(ic, sub9)
+		for _, o := range sub9.Obls {
+			o.Rule = "R06.9"
+			r.add(o)
+		}
+		r.Errors = append(r.Errors, sub9.Errors...)
+	}
 }
 
 func c06R1(ic *IC, r *Report) {
